@@ -35,7 +35,7 @@ out = r.stdout
 res = os.path.join(ROOT, "seeded", sid, "result_%s_%s.txt" % (prop, tier))
 with open(res, "w") as f:
     f.write("exit=%d\n" % r.returncode)
-    f.write("\n".join(l for l in out.splitlines() if not l.startswith("PROBLEM")) + "\n")
+    f.write("\n".join((l[:300] if l.startswith("PROBLEM") else l) for l in out.splitlines()) + "\n")
     f.write("problems=%d\n" % sum(1 for l in out.splitlines() if l.startswith("PROBLEM")))
 print("exit", r.returncode, "->", res)
 subprocess.call(["git", "-C", "/repo", "worktree", "remove", "--force", wt])
